@@ -1,12 +1,13 @@
-//! C07 — nothing bound to a fabric outlives that fabric.
+//! C11 — persisted state survives a crash at any point and reloads to what was committed.
 //!
-//! The C08 world (real device with the real root-endpoint data model, administrator driving raw
-//! commands, operational sessions set up by the harness as soon as a fabric exists) explored by
-//! the same explicit-state BFS, with the C07 oracle evaluated after every operation: every
-//! usable secure session in the device's table must be bound to a fabric that still exists and
-//! is the very fabric it was established for (not a later one that got the same index); a
-//! removal leaves the sessions of other fabrics alone. Roots: a factory-fresh node, a node with
-//! one fabric, a node with two fabrics.
+//! The C08 world and its explicit-state BFS over administrative histories. After every operation
+//! the key-value store's operation log is cut at every point inside that operation (a crash
+//! between two store operations) and a fresh node is started from each such store: it must
+//! start, and come up with either the configuration before or the configuration after the
+//! operation. At the end of every history: a node restarted from the store reads back exactly
+//! the configuration in memory; nine kinds of damaged session-resumption blobs do not change what
+//! the node starts with; a factory reset leaves no key behind. (That a restart yields exactly the
+//! last *acknowledged* configuration is the C08 oracle on the same histories.)
 
 use serde_json::{json, Value};
 
@@ -25,7 +26,7 @@ pub fn run_check(ctx: &Ctx) -> i32 {
         std::env::set_var("MC_SHOW_PANICS", "1");
         let hist: Vec<Op> = doc["replay"]["history"].as_array().unwrap().iter().filter_map(|s| c08::parse_op(s.as_str().unwrap_or(""))).collect();
         let mut report = Report::new();
-        match c08::execute_mode(&hist, 7) {
+        match c08::execute_mode(&hist, 11) {
             Err(e) => {
                 eprintln!("MACHINERY: {}", e);
                 return 2;
@@ -39,12 +40,12 @@ pub fn run_check(ctx: &Ctx) -> i32 {
         }
         return common::finish(ctx, report, Evidence::new("model_checking"));
     }
-    let (d1, d2) = if ctx.tier == Tier::Quick { (5, 3) } else { (7, 5) };
+    let (d1, d2) = if ctx.tier == Tier::Quick { (4, 2) } else { (6, 4) };
     let mut report = Report::new();
     let (mut states, mut transitions) = (0usize, 0u64);
     let mut per_root = Vec::new();
     for (name, prefix, d) in [("factory-fresh", vec![], d1), ("one-fabric-commissioned", c08::honest_prefix(), d1), ("two-fabrics-commissioned", two_fabrics(), d2)] {
-        let r = match c08::bfs(prefix, d, if ctx.tier == Tier::Quick { 8_000 } else { 400_000 }, 7) {
+        let r = match c08::bfs(prefix, d, if ctx.tier == Tier::Quick { 4_000 } else { 200_000 }, 11) {
             Ok(r) => r,
             Err(e) => {
                 eprintln!("MACHINERY: {}", e);
@@ -63,12 +64,14 @@ pub fn run_check(ctx: &Ctx) -> i32 {
         .set("transitions", json!(transitions))
         .set("traces_validated_against_impl", json!(transitions))
         .set("exhaustive", json!(true))
+        .set("vacuity", json!({"operations_that_wrote_to_the_store": c08::C11_OPS_WITH_STORES.load(std::sync::atomic::Ordering::Relaxed), "crash_points_strictly_inside_an_operation": c08::C11_INTERMEDIATE_POINTS.load(std::sync::atomic::Ordering::Relaxed)}))
         .set("roots", Value::Array(per_root))
-        .set("samples", json!([{"history": ["ArmP", "CsrP", "RootP", "AddNocP", "Tick"]}]))
-        .set("rule", json!(format!("every history of at most {} operations of the C08 alphabet (incl. RemoveFabric of the own and of another fabric, fail-safe expiry by the clock / ArmFailSafe(0) / RevokeCommissioning, restart) from a factory-fresh node and a node with one fabric, and of at most {} operations from a node with two fabrics; after every operation each usable secure session of the device must be bound to the existing fabric it was established for", d1, d2)));
-    ev.assume("operational sessions are set up by the harness (pre-established keys) as soon as a fabric exists, as a commissioner does before CommissioningComplete; session-resumption records and subscriptions of a removed fabric are not part of this check (no real CASE / subscription traffic in this world)");
+        .set("samples", json!([{"history": ["ArmP", "CsrP", "RootP", "AddNocP", "CompleteC(1)", "AclC(1)"]}]))
+        .set("rule", json!(format!("every history of at most {} operations of the C08 alphabet from a factory-fresh node and a node with one fabric, at most {} from a node with two fabrics; after every operation a fresh node is started from the store cut at every point inside the operation; at the end of every history: read-back equality, 9 damaged resumption blobs, factory reset", d1, d2)));
+    ev.assume("write granularity is one store / remove call of the key-value interface (a call is atomic; torn writes inside a call are the store implementation's business)");
+    ev.assume("binding, user-label and basic-information writes are not in the alphabet (the root-endpoint build of this harness has the fabric, ACL, group-key, label and network blobs)");
     if states < 20 {
-        eprintln!("MACHINERY: vacuous C07 run");
+        eprintln!("MACHINERY: vacuous C11 run");
         return 2;
     }
     common::finish(ctx, report, ev)
